@@ -288,6 +288,18 @@ fn one_c14(prop: &str, c: &Case, rep: &mut Report) {
     for (k, &i) in active.iter().enumerate() {
         let cell = vi.get_cell_at(i).expect("active cell");
         let t = cell_tol(cell, &s);
+        // with_faces -> discard_faces must hand the custom integrals the very same decomposition again (3D)
+        if c.dim == 3 && k % 3 == 0 && cell.vertices.len() <= 4000 {
+            let cl = cell.clone();
+            if let Ok(back) = std::panic::catch_unwind(move || cl.with_faces().discard_faces().compute_cell_integral::<(), Moments>(())) {
+                rep.count("cell_integrals_after_face_round_trip", 1);
+                if (0..10).any(|q| back.m[q].to_bits() != mom[k].m[q].to_bits()) || back.tets != mom[k].tets {
+                    rep.violations.push(Violation::new(prop, "c14.round_trip_changes_decomposition", format!("cell {i}: after with_faces() -> discard_faces() the custom cell integral receives another decomposition: volume {:e} ({} tetrahedra) instead of {:e} ({})", back.m[0], back.tets, mom[k].m[0], mom[k].tets), Some(c), json!({"cell": i})));
+                }
+            } else {
+                rep.violations.push(Violation::new(prop, "totality.panic", format!("cell {i}: with_faces() -> discard_faces() -> compute_cell_integral panicked"), Some(c), json!({"cell": i})));
+            }
+        }
         let rs = setup.summary(i);
         rep.count("cells_checked", 1);
         rep.count("tetrahedra_received", mom[k].tets as u64);
